@@ -87,6 +87,27 @@ def corr_eq(case, impl, model):
     return len(io) == len(mo)
 
 
+def oracle_ok(case, impl, oracle):
+    """Property-level checks on the implementation's line alone: no panic; a failed operation leaves the
+    read position where it was (atomicity); plus the spec decoder's verdict for single read_question cases."""
+    if "panic" in impl or impl in ("timeout", "crash"):
+        return False
+    cur = 12
+    for o in impl.split(" ; "):
+        if " @" not in o:
+            continue
+        body, at = o.rsplit(" @", 1)
+        if body.startswith("err ") and at != str(cur):
+            return False
+        if at.isdigit():
+            cur = int(at)
+    if oracle == "-":
+        return True
+    if oracle == "reject":
+        return impl.startswith("err")
+    return impl == oracle
+
+
 CHECK = {
     "property": "C15",
     "props": "Props/C15.v",
@@ -95,6 +116,7 @@ CHECK = {
     "allowed_axioms": [],
     "correspondence": {"impl_bin": "impl_c15", "extract": "Extract/ExC15.v", "driver": "run_c15.ml"},
     "gen": gen,
+    "oracle_ok": oracle_ok,
     "nontrivial": nontrivial,
     "classify": classify,
     "n_samples": 6,
